@@ -137,8 +137,7 @@ Print Assumptions C34_complete_refuted.
    encryption with the documented counters (C34_ctr + C34_ctr_involutive, for any 16-byte block function);
    and verifyChunk accepts the genuine chunk -- cut at the end of the file -- and returns it unchanged,
    for every offset inside the file, every limit and every layout of hash windows that covers the file
-   (C34_honest_accepted).  Not modelled: the loop of cdn.Chunk that walks the plan, rejects over-long
-   answers (fix 833ec1650) and stops at the first short one; it is exercised by the "none" attack runs. *)
+   (C34_honest_accepted).  The loop of cdn.Chunk itself: C34_chunk_honest / C34_chunk_sound below. *)
 Theorem C34_plan_assembles :
   forall file steps cur, 0 <= cur -> steps_ok cur steps ->
     concat (map (fun s => slice file (fst s) (fst s + snd s)) steps) = slice file cur (cur + steps_total steps).
@@ -161,6 +160,34 @@ Theorem C34_honest_accepted :
       verify_chunk sha hash_for fetch offset lim data = Some data.
 Proof. exact verify_chunk_honest. Qed.
 Print Assumptions C34_honest_accepted.
+
+(* cdn.Chunk in CDN mode, through the real loop structure (plan -> one getCdnFile per step, over-long
+   answer = error, decrypt, append, stop at the first short part -> verifyChunk):
+   C34_chunk_honest: with an honest CDN (the file's bytes for each step, CTR-encrypted with the documented
+   counters, any 16-byte block function) and an honest hash list covering the file, the chunk returned for
+   every aligned (offset inside the file, limit) is exactly file[offset, min(offset+limit, size));
+   C34_chunk_sound: for ANY CDN, a returned chunk has at most [limit] bytes and every byte of it lies in a
+   hash-verified window (so, with C34_verify_genuine, it is genuine; what can still go wrong is only where
+   a short chunk ends: C34_complete_partial / known finding). *)
+Theorem C34_chunk_honest :
+  forall (E : Z -> list Z) ivz, (forall z, length (E z) = 16%nat) ->
+  forall (file : list Z) sha hash_for fetch offset limit,
+    (forall o, 0 <= o < zlen file ->
+       exists w, hash_for o = Some w /\ 0 <= w_off w <= o /\ o < w_off w + w_limit w /\ w_hash w = sha (gen file w)) ->
+    (forall w, fetch w = gen file w) ->
+    0 <= offset < zlen file -> 0 < limit -> offset mod c_cdnMinChunk = 0 -> limit mod c_cdnMinChunk = 0 ->
+    cdn_chunk E ivz (honest_answers E ivz file) sha hash_for fetch offset limit =
+    Some (slice file offset (Z.min (offset + limit) (zlen file))).
+Proof. intros E ivz E16 file sha hash_for fetch offset limit. exact (cdn_chunk_honest E ivz E16 file sha hash_for fetch offset limit). Qed.
+Print Assumptions C34_chunk_honest.
+
+Theorem C34_chunk_sound :
+  forall (E : Z -> list Z) ivz sha hash_for fetch answers offset limit d,
+    (forall o w, hash_for o = Some w -> w_off w <= o) ->
+    cdn_chunk E ivz answers sha hash_for fetch offset limit = Some d ->
+    zlen d <= limit /\ forall x, offset <= x < offset + zlen d -> cov sha hash_for d offset x.
+Proof. intros E ivz sha hash_for fetch answers offset limit d. exact (cdn_chunk_sound E ivz sha hash_for fetch answers offset limit d). Qed.
+Print Assumptions C34_chunk_sound.
 
 (* The verifier's hash queue (WithVerify(true)): against a server that hands out the consecutive
    hash windows W of a file in non-empty batches (and nothing new at the end), a verifier seeded
